@@ -157,10 +157,11 @@ Qed.
 
 Lemma silent_task_inv s tr sid s' o : inv s tr -> silent_task SV s sid = Some (s', o) -> inv s' (tr ++ proj o).
 Proof.
-  intros I H. unfold silent_task in H. destruct (ts s sid) as [|[|k]| |[|k]|] eqn:E; try discriminate.
+  intros I H. unfold silent_task in H. destruct (ts s sid) as [|[|k]| |[|k]|[|k]|] eqn:E; try discriminate.
   - destruct (existsb (Nat.eqb sid) (stopreq s)); [|destruct (s_ends (svc_of SV sid))]; inversion H; subst;
       apply inv_task_change; auto; try congruence; try (intros c [Hc|[]]; discriminate); try (intros c []);
       try discriminate; intros; simpl; auto.
+  - inversion H; subst. apply inv_task_change; auto; try congruence; try (intros c []); try (intro X; discriminate X).
   - inversion H; subst. apply inv_task_change; auto; try congruence; [intros c [Hc|[]]; discriminate|intros; simpl; auto].
 Qed.
 
@@ -263,8 +264,9 @@ Proof.
   - assert (E1 : own s1 = own s /\ regs s1 = regs s).
     { clear -F. revert F. generalize (seq 0 (length SV)). induction l as [|sid r IHl]; simpl; [discriminate|].
       destruct (silent_task SV s sid) as [[s2 o2]|] eqn:S; [|exact IHl]. intro H. inversion H; subst.
-      unfold silent_task in S. destruct (ts s sid) as [|[|k]| |[|k]|]; try discriminate.
+      unfold silent_task in S. destruct (ts s sid) as [|[|k]| |[|k]|[|k]|]; try discriminate.
       - destruct (existsb (Nat.eqb sid) (stopreq s)); [|destruct (s_ends (svc_of SV sid))]; inversion S; auto.
+      - inversion S; auto.
       - inversion S; auto. }
     destruct E1 as [Eo Er]. destruct (IH s1 rest) as [A B]; [congruence|].
     destruct (settle f SV s1). simpl in *. split; congruence.
@@ -282,8 +284,9 @@ Proof.
   - assert (E1 : own s1 = own s).
     { clear -F. revert F. generalize (seq 0 (length SV)). induction l as [|sid r IHl]; simpl; [discriminate|].
       destruct (silent_task SV s sid) as [[s2 o2]|] eqn:S; [|exact IHl]. intro H. inversion H; subst.
-      unfold silent_task in S. destruct (ts s sid) as [|[|k]| |[|k]|]; try discriminate.
+      unfold silent_task in S. destruct (ts s sid) as [|[|k]| |[|k]|[|k]|]; try discriminate.
       - destruct (existsb (Nat.eqb sid) (stopreq s)); [|destruct (s_ends (svc_of SV sid))]; inversion S; auto.
+      - inversion S; auto.
       - inversion S; auto. }
     specialize (IH s1). destruct (settle f SV s1). simpl in *. apply IH. intros r' E. apply (N r'). congruence.
   - destruct (silent_owner SV s) as [[s1 o1]|] eqn:E2; simpl; auto.
@@ -349,7 +352,7 @@ Proof.
       pose proof (settle_not_block (fuel_for SV prog) s1) as NB.
       destruct (settle (fuel_for SV prog) SV s1) as [s2 o2]. simpl in *. split; auto.
       apply binv_teardown. apply NB. simpl. discriminate.
-  - destruct (ts s sid) as [|[|k]| |[|k]|] eqn:Et; simpl; try (rewrite app_nil_r; auto; fail).
+  - destruct (ts s sid) as [|[|k]| |[|k]|[|k]|] eqn:Et; simpl; try (rewrite app_nil_r; auto; fail).
     + assert (I1 : inv (set_task s sid (TRun k)) (tr ++ proj [Seg sid])).
       { apply inv_task_change; [exact I|rewrite Et; discriminate|intros c H; exact H|intro X; discriminate X]. }
       simpl in I1. rewrite app_nil_r in I1.
@@ -372,6 +375,17 @@ Proof.
         - exfalso. eapply (settle_not_block (fuel_for SV prog) (set_task s sid (TCleanup k))); eauto. simpl. rewrite Eo. discriminate.
         - exfalso. eapply (settle_not_block (fuel_for SV prog) (set_task s sid (TCleanup k))); eauto. simpl. rewrite Eo. discriminate. }
       destruct (settle (fuel_for SV prog) SV (set_task s sid (TCleanup k))) as [s2 o2]. simpl in *. auto.
+    + assert (I1 : inv (set_task s sid (TCtx k)) (tr ++ proj [CtxSeg sid])).
+      { apply inv_task_change; [exact I|rewrite Et; discriminate|intros c H; exact H|intro X; discriminate X]. }
+      simpl in I1. rewrite app_nil_r in I1.
+      pose proof (settle_inv SV (fuel_for SV prog) _ tr I1) as I2.
+      assert (Bs : binv (fst (settle (fuel_for SV prog) SV (set_task s sid (TCtx k))))).
+      { intros r' E. destruct (own s) as [r0| |] eqn:Eo.
+        - destruct (settle_own_block (fuel_for SV prog) (set_task s sid (TCtx k)) r0 Eo) as [So Sr].
+          rewrite So in E. inversion E; subst. rewrite Sr. simpl. apply B. exact Eo.
+        - exfalso. eapply (settle_not_block (fuel_for SV prog) (set_task s sid (TCtx k))); eauto. simpl. rewrite Eo. discriminate.
+        - exfalso. eapply (settle_not_block (fuel_for SV prog) (set_task s sid (TCtx k))); eauto. simpl. rewrite Eo. discriminate. }
+      destruct (settle (fuel_for SV prog) SV (set_task s sid (TCtx k))) as [s2 o2]. simpl in *. auto.
 Qed.
 
 Fixpoint run_gates (s : st) (tr : list obs) (gs : list gate) : st * list obs :=
